@@ -281,6 +281,9 @@ func randomTable(rng *rand.Rand, keyOf func(int) gpbft.PubKey, idx int) gpbft.Po
 		n = 9 + rng.Intn(24)
 	}
 	shape := idx % 9
+	if shape == 6 {
+		n = 1 + rng.Intn(3)
+	}
 	var entries gpbft.PowerEntries
 	randPow := func(bits int) *big.Int {
 		p := new(big.Int).Rand(rng, new(big.Int).Lsh(big.NewInt(1), uint(bits)))
@@ -305,6 +308,13 @@ func randomTable(rng *rand.Rand, keyOf func(int) gpbft.PubKey, idx int) gpbft.Po
 			p = big.NewInt(1 + rng.Int63n(5))
 		case 3: // same bit length, nearly equal
 			p = new(big.Int).Add(new(big.Int).Lsh(big.NewInt(1), 120), big.NewInt(rng.Int63n(3)))
+		case 6: // machine-word boundary family: the largest entry just below 2^k, k sweeping 40..66 (where 64-bit shortcuts of p*65535 or of the total would wrap)
+			k := 40 + (idx/9)%27
+			if i == 0 {
+				p = new(big.Int).Add(new(big.Int).Lsh(big.NewInt(1), uint(k-1)), new(big.Int).Rand(rng, new(big.Int).Lsh(big.NewInt(1), uint(k-1))))
+			} else {
+				p = randPow(k - 3)
+			}
 		case 4: // 16-bit range
 			p = big.NewInt(1 + rng.Int63n(65535))
 		default:
